@@ -261,7 +261,9 @@ def po2Cap (m : Option Rat) : Option Rat :=
   | none => none
 
 /-- `old.convert_qkeras_quantizer(q)`; `old` is an object of the class paired with `q.cls`.
-    `QuantizedRelu` only ever SETS `is_signed` (`if negative_slope != 0: self.is_signed = 1`). -/
+    `QuantizedRelu` assigns `is_signed` on every conversion (`self.is_signed = int(hasattr(…) and
+    negative_slope != 0)`) since the repair of C16-relu-reconvert-sign; it used to only ever SET it
+    (`if negative_slope != 0: self.is_signed = 1`, no else). -/
 def convertOnto (old : QRec) (q : QKerasQ) : Option QRec :=
   match q.cls with
   | "quantized_bits" =>
@@ -276,7 +278,7 @@ def convertOnto (old : QRec) (q : QKerasQ) : Option QRec :=
   | "quantized_relu" =>
     some { old with mode := if q.bits = 1 ∧ q.integer = 1 then 4 else 0, bits := q.bits,
                     intBits := q.integer,
-                    signed := if q.negSlopeNonzero then true else old.signed }
+                    signed := q.negSlopeNonzero }
   | "ternary" => some old
   | "stochastic_ternary" => some old
   | "quantized_po2" =>
